@@ -133,6 +133,23 @@ class C13:
         tvec = {k: truth[k] for k in free}
         state = {}
 
+        # a second model of the same system with tighter priors (what a
+        # user writes after a first look at the data)
+        import copy as _copy
+        priors2 = _copy.deepcopy(priors)
+        for k_, sp_ in priors2.items():
+            if sp_['ctor'] == 'uniform':
+                a_ = sp_['args']
+                lo_in, hi_in = min(a_['guess'], truth[k_]), \
+                    max(a_['guess'], truth[k_])
+                if a_['lo'] < lo_in:
+                    a_['lo'] = round(lo_in - 0.4 * (lo_in - a_['lo']), 9)
+                if a_['hi'] > hi_in:
+                    a_['hi'] = round(hi_in + 0.4 * (a_['hi'] - hi_in), 9)
+
+        def v2(k):
+            return priors2[k] if k in priors2 else truth[k]
+
         def setup():
             state['det'] = b.emit('detector_grid', {
                 'shape': n, 'spacing': spacing, 'optics': OPT,
@@ -144,6 +161,14 @@ class C13:
             state['data'] = b.emit('noisy_data', {
                 'mo': state['mo'], 'pars': tvec, 'det': state['det'],
                 'noise': 0.0, 'seed': 1}, store='data')
+            sc2 = b.emit('sphere', {'n': v2('n'), 'r': v2('r'),
+                                    'center': [v2('x'), v2('y'), v2('z')]},
+                         store='sc2')
+            th2 = th if not lens else {
+                'kind': 'MieLens', 'options': {'lens_angle': v2('lens_angle')}}
+            state['mo2'] = b.emit('model', {
+                'kind': 'alpha', 'sc': sc2, 'alpha': v2('alpha'),
+                'optics': {'noise_sd': noise}, 'th': th2}, store='mo2')
             state['sts'] = []
             state['res'] = []
         setup()
@@ -228,6 +253,18 @@ class C13:
                        store='res', tags=tags)
             if interrupted:
                 b.emit('disarm', {})
+                if rng.random() < 0.9:
+                    # the strategy that was stopped half-way goes on to fit
+                    # the tighter model
+                    t2 = {'k': 'fit/' + kind, 'fit': True, 'seeded': seeded,
+                          'sub': sub, 'start': start, 'full': full,
+                          'is_main': data is state['data'], 'model2': True,
+                          'rng_dependent': not seeded}
+                    r2 = b.emit('fit', {'data': data, 'mo': state['mo2'],
+                                        'st': sth}, store='res', tags=t2)
+                    state['res'].append(r2)
+                    b.emit('result_check', {'res': r2, 'data': data},
+                           tags={'k': 'result_check', 'check': True})
                 continue
             state['res'].append(r)
             if rng.random() < 0.8:
@@ -270,6 +307,7 @@ class C13:
                            'guesses': guesses, 'priors': priors,
                            'start': start, 'full': full, 'lens': lens,
                            'excluded': excluded, 'onbound': onbound,
+                           'priors2': priors2,
                            'node': {'epoch': 1.6e9 + rng.randrange(10 ** 6),
                                     'tick': rfloat(rng, 0.001, 30.0)}},
                 'events': b.events}
@@ -450,7 +488,10 @@ class C13:
                 return
         # parameters inside prior bounds; fixed point / recovery
         pars = {k: _f(v) for k, v in p['parameters']['__dict__']}
-        for k, spec in cfg['priors'].items():
+        fe_ = ex.events_by_id.get(rec['rargs']['res'].get('ref'))
+        which = 'priors2' if fe_ is not None and fe_.get('tags', {}).get(
+            'model2') and cfg.get('priors2') else 'priors'
+        for k, spec in cfg[which].items():
             if spec['ctor'] == 'uniform' and k in pars:
                 a = spec['args']
                 if not (a['lo'] <= pars[k] <= a['hi']):
